@@ -23,6 +23,7 @@ SPEC = {
     "vk_url_parse_ipv4": {"max_n": 15, "min_n": 1}, "vk_agg_parse_ipv4": {"max_n": 10, "min_n": 1},
     "vk_url_parse_ipv6": {"max_n": 0}, "vk_agg_parse_ipv6": {"max_n": 0},
     "vk_to_lower_ascii": {"cap_is_n": True},
+    "vk_parse_state": {"skip": True}, "vk_set_limit": {"skip": True},
 }
 _corpus_cache = {}
 _lock = threading.Lock()
